@@ -40,7 +40,7 @@ def fileField (s : String) : Option Bytes :=
   else ofHexField s
 
 /-- a text field, as its UTF-8 bytes; `badutf8` when it is not UTF-8 -/
-def withUtf8 (f : String) (k : Bytes → String) : String :=
+private def withUtf8 (f : String) (k : Bytes → String) : String :=
   match ofHexField f with
   | none => "bad-op"
   | some bs =>
@@ -53,7 +53,7 @@ def showErr416 {α : Type} (f : α → String) : Outcome α → String
   | .err     => "err 416"
   | .panic s => "panic " ++ s
 
-def showList (o : Outcome (List ContentRange)) : String :=
+private def showList (o : Outcome (List ContentRange)) : String :=
   showErr416 (fun l => showContentRanges (l.map squeeze)) o
 
 def showReply : Outcome Reply → String
